@@ -203,7 +203,10 @@ def run_blocks(r, case):
                     return
                 # Gibbs needs log_prob to be the samples' exact density: not so inside the declared eps clamp of the
                 # Sigmoid / Logit data prefixes ((0,1) and (-1,1) data), where saturated samples sit on the clamp point
-                if gibbs_ok and mj < -8 * sej - 1e-9:
+                # (absolute floor 1e-3: with contexts that barely matter the statistic resolves 1e-6, where knot-side ambiguity
+                #  of piecewise-linear pieces and the cubic inverse's own tolerance show as a bias of a few 1e-5; a block drawn
+                #  under the wrong row is off by the divergence between rows, which "separated" sets have at >= 1e-2)
+                if gibbs_ok and mj < -8 * sej - 1e-3:
                     r.viol("gibbs", "%s.sample(n, context)[i] prefers another context row's density (Gibbs' inequality broken)" % label,
                            context_row=i, against_row=j, rows=rows, mean=mj, se=sej, **det)
                     return
